@@ -67,16 +67,16 @@ WeightsAddUp == LET c == Ctx IN
 \* the reported head is viable, has no eligible child, and lies below its starting node; with a known
 \* finalized anchor and no pin it lies in the finalized subtree
 HeadSound == LET c == Ctx
-                 h == HeadOf(c) IN
+                 h == HeadOf(c, FALSE) IN
     h[1] => LET hi == IdxOf(h[2]) IN
             /\ c.viable[hi]
-            /\ ~\E k \in c.kids[hi] : c.leads[k]
+            /\ ~\E k \in c.kids[hi] : c.leads[k] /\ hi # IdxOf(HeadStart)
             /\ IdxOf(HeadStart) \in c.tanc[hi]
 \* "finalized subtree" is read at root level, as UpdateJustified itself does: the subtree of the earliest retained
 \* node of the finalized root (TLC shows the slot-level reading is not enforceable through this API: a finalized
 \* checkpoint whose epoch-start node does not exist yet can be followed by a justified root that forked earlier)
 HeadInFinalizedSubtree == LET c == Ctx
-                              h == HeadOf(c) IN
+                              h == HeadOf(c, FALSE) IN
     (h[1] /\ pin = <<>> /\ Known(fin.root)) => IdxOf(<<fin.root, First(fin.root)>>) \in c.tanc[IdxOf(h[2])]
 
 \* navigation queries agree with each other
@@ -86,8 +86,8 @@ QueriesAgree == LET c == Ctx IN
          /\ ~q[1]
          /\ (q[2] /\ a # r) => First(a) <= First(r)
     /\ \A k \in Keys :
-         LET ch == CanonChainOf(c, k)
-             fh == FindHeadOf(c, k) IN
+         LET ch == CanonChainOf(c, k, FALSE)
+             fh == FindHeadOf(c, k, FALSE) IN
          /\ ch[1] = fh[1]
          /\ ch[1] => /\ ch[2][1] = fh[2] /\ ch[2][Len(ch[2])] = k
                      /\ \A n \in 1..(Len(ch[2]) - 1) : IdxOf(ch[2][n + 1]) = c.tpar[IdxOf(ch[2][n])]
